@@ -289,6 +289,9 @@ SigNext ==
 (* the top of rope/refactor/inline.py: the argument text is spliced        *)
 (* without parentheses (100*i + k * 2), and only the reads of a reassigned *)
 (* parameter are replaced (print shows the value without the 7).           *)
+(* shownS = shared map only, shownL = splice / reassign only, shownD =      *)
+(* both; the harness accepts a deviation as a known finding only when the  *)
+(* observed output equals exactly one of these predictions.                *)
 InlineSigs == { s \in Sigs : ~s.va /\ ~s.kw /\ s.ko = 0 }
 AsPairs(m) == { <<name, m[name]>> : name \in DOMAIN m }
 \* argument values are made site-unique: the k-th argument of site i is 100*i + k
